@@ -156,13 +156,27 @@ func coverStage(name string, cats []*cat.Catalog, b Bounds, timeout time.Duratio
 			}
 		}
 	}()
-	var extra []string
-	if coverage {
-		extra = []string{"-coverage", "1"}
-	}
-	tl, terr := runTLC(dir, "MCGen", nw, timeout, extra, func(s string) { p.submit(s) })
+	tl, terr := runTLC(dir, "MCGen", nw, timeout, nil, func(s string) { p.submit(s) })
 	p.close()
 	wg.Wait()
+	if coverage && terr == nil {
+		// anti-vacuity: per-action coverage, measured on a sample of the family (TLC's coverage
+		// statistics are kept per expression, and the data module of a whole family is huge)
+		sample := cats
+		if len(sample) > 20 {
+			sample = sample[:20]
+		}
+		if cdir, err := newWorkDir("coverage-" + name); err == nil {
+			if _, err := writeCats(cdir, sample); err == nil {
+				os.WriteFile(filepath.Join(cdir, "MCGen.tla"), []byte(mod), 0o644)
+				os.WriteFile(filepath.Join(cdir, "MCGen.cfg"), []byte(cfg), 0o644)
+				if ctl, cerr := runTLC(cdir, "MCGen", nw, timeout, []string{"-coverage", "1"}, nil); cerr == nil {
+					tl.Coverage = ctl.Coverage
+				}
+			}
+			os.RemoveAll(cdir)
+		}
+	}
 	st.TLC = tl
 	st.Crashes = p.crashes
 	st.Wall = time.Since(start).Seconds()
